@@ -151,7 +151,7 @@ func randPacket4(rng *rand.Rand, nopts int, lens []int) *dhcpv4.DHCPv4 {
 		ServerHostName: randNoNul(rng, pick(rng, 0, 1, 62, 63, rng.Intn(64))),
 		BootFileName:   randNoNul(rng, pick(rng, 0, 1, 126, 127, rng.Intn(128))),
 	}
-	copy(p.TransactionID[:], randBytes(rng, 4))
+	copy(p.TransactionID[:], rxid(rng, 4))
 	if rng.Intn(8) == 0 {
 		p.ClientHWAddr = nil
 	}
@@ -245,7 +245,7 @@ func meaningfulPackets(rng *rand.Rand, f func(*dhcpv4.DHCPv4)) {
 		for op := 1; op <= 2; op++ {
 			for names := 0; names < 3; names++ {
 				p, _ := dhcpv4.New()
-				copy(p.TransactionID[:], randBytes(rng, 4))
+				copy(p.TransactionID[:], rxid(rng, 4))
 				p.OpCode = dhcpv4.OpcodeType(op)
 				if mt > 0 {
 					p.UpdateOption(dhcpv4.OptMessageType(dhcpv4.MessageType(mt)))
@@ -296,7 +296,7 @@ func meaningfulPackets(rng *rand.Rand, f func(*dhcpv4.DHCPv4)) {
 				v = append(v, randBytes(rng, n)...)
 			}
 			p, _ := dhcpv4.New()
-			copy(p.TransactionID[:], randBytes(rng, 4))
+			copy(p.TransactionID[:], rxid(rng, 4))
 			p.UpdateOption(dhcpv4.OptGeneric(dhcpv4.GenericOptionCode(code), v))
 			if k%2 == 0 {
 				p.UpdateOption(dhcpv4.OptMessageType(dhcpv4.MessageTypeRequest))
@@ -339,7 +339,7 @@ func meaningfulPackets(rng *rand.Rand, f func(*dhcpv4.DHCPv4)) {
 	for _, nsmall := range []int{8, 11, 12, 13, 20, 40} {
 		for _, long := range []int{256, 300, 700, 3100, 4096} {
 			p, _ := dhcpv4.New()
-			copy(p.TransactionID[:], randBytes(rng, 4))
+			copy(p.TransactionID[:], rxid(rng, 4))
 			for i := 0; i < nsmall; i++ {
 				p.UpdateOption(dhcpv4.OptGeneric(dhcpv4.GenericOptionCode(100+i), randBytes(rng, 1+rng.Intn(6))))
 			}
@@ -357,7 +357,7 @@ func meaningfulPackets(rng *rand.Rand, f func(*dhcpv4.DHCPv4)) {
 	// boot options that repeat what the header fields say, exactly and almost
 	for k := 0; k < 6; k++ {
 		p, _ := dhcpv4.New(dhcpv4.WithMessageType(dhcpv4.MessageTypeAck))
-		copy(p.TransactionID[:], randBytes(rng, 4))
+		copy(p.TransactionID[:], rxid(rng, 4))
 		p.OpCode = dhcpv4.OpcodeBootReply
 		p.ServerHostName, p.BootFileName = "tftp.example", "boot/pxelinux.0"
 		sn, fn := p.ServerHostName, p.BootFileName
@@ -376,7 +376,7 @@ func meaningfulPackets(rng *rand.Rand, f func(*dhcpv4.DHCPv4)) {
 	for _, big := range []int{0, 40, 60, 61, 200, 255, 256, 600} {
 		for _, nEmpty := range []int{1, 2, 5} {
 			p, _ := dhcpv4.New()
-			copy(p.TransactionID[:], randBytes(rng, 4))
+			copy(p.TransactionID[:], rxid(rng, 4))
 			for i := 0; i < nEmpty; i++ {
 				if i%2 == 0 {
 					p.UpdateOption(dhcpv4.OptGeneric(dhcpv4.GenericOptionCode(80+i), nil))
